@@ -165,3 +165,8 @@ def run(facts, res):
 
 def _from_param(t, name):
     return any(x[0] == "param" and x[2] == name for x in walk(t))
+
+
+def thorough(res):
+    from .. import engine
+    engine.sensitivity("C07", res)
